@@ -65,6 +65,14 @@ CLAIMED = {
         "Trusted: z3, CV evaluator, the scoping oracle in fv/props/c07.py.",
         "DESIGN.md §5 C07",
     ),
+    "C08": (
+        "SMT regex inclusion (FORMAT / computed GOTO skipping) + symbolic execution of parser and Project.correlate on symbolic procedure bodies (finite-choice statements)",
+        "Every FORMAT statement and computed GOTO of the grammar (unbounded) reaches the branch that skips call scanning; for every pair of "
+        "executable statements from the option tables (calls, nested function references, control-construct headers, type-bound calls, I/O, "
+        "array references, intrinsics, literals with call-like text, ASSOCIATE nesting) the recorded calls equal the user procedures invoked.",
+        "Trusted: z3, RX translator, CV evaluator; expected call lists are part of the option tables.",
+        "DESIGN.md §5 C08",
+    ),
     "C09": (
         "SMT (z3 linear integer arithmetic) implication between template link conditions (Jinja AST) and page-creation conditions (Python AST)",
         "For every statically known internal URL in the real templates the enclosing template conditions imply the page-creation "
